@@ -445,6 +445,103 @@ def work_redefine(item):
     return (item, samples, None)
 
 
+
+# ---------------------------------------------------------------- (d) host roots
+HR_EVENTS = ("make0", "make1", "root0", "root1", "drop0", "drop1", "unroot0", "unroot1", "gc")
+
+
+def host_root_histories(depth):
+    """every history over: put a fresh self-referential box into global r0 / r1, the host roots the current value of r0 / r1 in slot 0 / 1
+    (SteelVal::as_rooted), the script drops r0 / r1, the host releases slot 0 / 1, full collection. Enabledness: root needs an object in the
+    global, unroot a held root, drop an object; histories that differ only in events after the last collection add nothing: every history
+    ends with  ... gc [release everything] gc"""
+    out = []
+
+    def rec(path, g, held):
+        if path and path[-1] == "gc":
+            out.append(tuple(path))
+        if len(path) == depth:
+            return
+        for e in HR_EVENTS:
+            i = int(e[-1]) if e[-1].isdigit() else None
+            if e.startswith("make") and g[i] is None:
+                g2 = list(g); g2[i] = "o"; rec(path + [e], g2, held)
+            elif e.startswith("root") and g[i] is not None and held[i] is None:
+                h2 = list(held); h2[i] = "o"; rec(path + [e], g, h2)
+            elif e.startswith("drop") and g[i] is not None:
+                g2 = list(g); g2[i] = None; rec(path + [e], g2, held)
+            elif e.startswith("unroot") and held[i] is not None:
+                h2 = list(held); h2[i] = None; rec(path + [e], g, h2)
+            elif e == "gc" and path and path[-1] != "gc":
+                rec(path + [e], g, held)
+    rec([], [None, None], [None, None])
+    return out
+
+
+def run_host_root(path, env, cal):
+    base, cost, cal_ok, back = cal
+    steps = [PRE, "(begin (#%gc-collect) void)", "(stats)"]
+    plan = []  # (event, objects alive according to the twin after it) for gc events
+    nextid = 0
+    g = [None, None]
+    held = [None, None]
+    for e in list(path) + ["unroot0", "unroot1", "drop0", "drop1", "gc"]:
+        i = int(e[-1]) if e[-1].isdigit() else None
+        if e.startswith("make"):
+            steps.append("(begin (set! r%d (let ((b (box %d))) (set-box! b (list %d b)) b)) void)" % (i, nextid, nextid))
+            g[i] = nextid
+            nextid += 1
+        elif e.startswith("root"):
+            if g[i] is None or held[i] is not None:
+                continue
+            steps.append({"op": "root", "name": "r%d" % i, "slot": i})
+            held[i] = g[i]
+        elif e.startswith("drop"):
+            steps.append("(begin (set! r%d #f) void)" % i)
+            g[i] = None
+        elif e.startswith("unroot"):
+            steps.append({"op": "unroot", "slot": i})
+            held[i] = None
+        else:
+            steps.append("(begin (#%gc-collect) void)")
+            steps.append("(stats)")
+            live = set(x for x in g + held if x is not None)
+            plan.append((len(steps) - 1, len(live), list(held)))
+            for k in (0, 1):
+                if held[k] is not None:
+                    steps.append({"op": "rootval", "slot": k})
+                    plan.append((len(steps) - 1, "val", held[k]))
+    r = common.run_cases([{"id": 0, "steps": steps}], env=env, batch=1, timeout_ms=60000)[0]
+    if r["exit"] != "normal" or len(r["steps"]) != len(steps):
+        return ["crash: engine exit %s after %d of %d steps" % (r["exit"], len(r["steps"]), len(steps))]
+    st = r["steps"]
+    fails = []
+    for idx, what, extra in plan:
+        if what == "val":
+            v = st[idx]["v"][-1] if st[idx]["s"] == "ok" else "error"
+            if ("(i %d)" % extra) not in v:
+                fails.append("premature: the value behind a held host root no longer shows its contents (%s, object %d)" % (v[:60], extra))
+            continue
+        s_ = parse_stats(st[idx]["v"][-1])
+        want = (base[0] - base[1]) + what * cost["box"][0]
+        got = s_[0] - s_[1]
+        if got > want:
+            fails.append("leak: after a collection %d value slots in use, objects reachable from globals and held host roots need %d" % (got, want))
+        elif got < want:
+            fails.append("premature: after a collection %d value slots in use, objects reachable from globals and held host roots need %d" % (got, want))
+    return fails
+
+
+def work_host_root(item):
+    env, paths, cal = item
+    out = []
+    for p in paths:
+        f = run_host_root(p, env, cal)
+        if f:
+            out.append((p, f))
+    return out
+
+
 def main(argv=None):
     a = common.parse_args(argv)
     if a.replay:
@@ -508,12 +605,25 @@ def main(argv=None):
                           {"shape": shape, "global_slots": [x[2] for x in samples]}, {"case": {"steps": [PRE, "(define r0 (box 1))", "(define r0 (box 2))", {"op": "symstats"}]}, "env": None})
         if not all(x[3] for x in samples):
             rep.violation("redefinition %s :: accounting :: alloc_count differs from the number of free slots" % shape, {"shape": shape}, {"case": {"steps": [PRE]}, "env": None})
-    cov = {"evaluations": n_trans + n_trans2 + len(items) + len(ritems) * n_units, "distinct_nontrivial": n_states + n_states2,
+    # (d) host roots
+    hr = host_root_histories(7 if a.tier == "thorough" else 6)
+    cal = calibrate(None)
+    import re as _re
+    hr_reported = set()
+    for res in common.pmap(work_host_root, [(None, ch, cal) for ch in common.chunks(hr, 25)]):
+        for p_, fails in res:
+            for f in fails:
+                sig = "host-roots %s :: %s" % (f.split(":")[0], _re.sub(r"\d+", "N", f)[:150])
+                if sig in hr_reported:
+                    continue
+                hr_reported.add(sig)
+                rep.violation(sig + " :: shortest history " + " ".join(p_), {"history": list(p_), "failure": f}, {"case": {"steps": [PRE]}, "env": None, "history": list(p_)})
+    cov = {"evaluations": n_trans + n_trans2 + len(items) + len(ritems) * n_units + len(hr), "host_root_histories": len(hr), "distinct_nontrivial": n_states + n_states2,
            "rule": "(a) BFS to depth %d over %d event kinds on 3 roots, <= %d objects; every (state, enabled event) pair executed on a fresh real engine by replaying the "
                    "shortest history of the state; state = canonical form of the twin heap graph (roots, edges, closure/continuation/weak holders, pending garbage); "
                    "second BFS to depth %d with a forced full collection at every allocation; (b) %d garbage patterns x {1,2} threads, %d iterations with a full collection and a sample of the heap "
                    "statistics every %d iterations (exact: slots in use == baseline; peak slot count of successive growth/compaction cycles does not rise; accounting "
-                   "invariant at every sample); thorough: natural growth/compaction policy over the ladder %s; (c) %d top-level re-definitions in separate evaluations x 3 shapes, sampled every 100: objects of shadowed definitions reclaimed, global table bounded" % (depth, 15, MAXOBJ, depth - 1, len(PATTERNS), n_iter, every, ladder, n_units),
+                   "invariant at every sample); thorough: natural growth/compaction policy over the ladder %s; (d) every history of <= 6 (7) events over {make a cyclic object in one of 2 globals, host roots it (as_rooted), script drops the global, host releases the root, full collection} followed by a drain: after each collection slots in use == baseline + objects reachable from globals and HELD host roots, a held root still reads its contents; (c) %d top-level re-definitions in separate evaluations x 3 shapes, sampled every 100: objects of shadowed definitions reclaimed, global table bounded" % (depth, 15, MAXOBJ, depth - 1, len(PATTERNS), n_iter, every, ladder, n_units),
            "samples": [" ".join(replay_steps((("new", 0, "box"), ("link", 0, 0), ("drop", 0), ("gc",)))[::2]), bounded_program("mixed-cycle-4", 1000, 1, 500)[1][:200]],
            "exhaustive": True, "states": n_states, "transitions": n_trans, "states_gc_every": n_states2, "transitions_gc_every": n_trans2, "slot_maxima": table}
     return rep.finish("model_checking", cov, assumptions=["slot cost per object kind is calibrated once in the initial state of each run and must then hold in every state",
